@@ -80,7 +80,10 @@ func runCTwin(c *ctx) error {
 	}
 	hist := map[string]int{}
 	for i := 0; i < n; i++ {
-		o := genOpts{maxRefs: 100, maxLogs: 30, smallBlocks: c.rng.Intn(3) > 0, sharedOids: c.rng.Intn(2) == 0}
+		o := genOpts{maxRefs: 100, maxLogs: 30, smallBlocks: c.rng.Intn(3) > 0, sharedOids: c.rng.Intn(3) > 0}
+		if c.rng.Intn(4) == 0 {
+			o.maxRefs = 400 // many refs per object id: multi-block object index, dropped position lists
+		}
 		t := genTable(c.rng, o)
 		if !nulFree(&t) {
 			continue
